@@ -3,6 +3,7 @@ package checks
 import (
 	"fmt"
 	"reflect"
+	"runtime/debug"
 	"strings"
 	"sync"
 	"sync/atomic"
@@ -229,6 +230,55 @@ func runC19(w *fw.Worker) {
 			}
 		}
 	}
+	// ---- alignment sweep: every initialism at every byte offset 0..80 inside one run of adjacent initialisms (the
+	// filler is made of ID (2 bytes) and API (3 bytes)), followed by nothing, by another initialism or by an ordinary word
+	if w.ReplayCase < 0 {
+		idx := 0
+		for off := 0; off <= 80; off++ {
+			var filler []string
+			rem := off
+			if rem == 1 {
+				continue
+			}
+			for rem > 0 {
+				if rem%2 == 1 {
+					filler = append(filler, "api")
+					rem -= 3
+				} else {
+					filler = append(filler, "id")
+					rem -= 2
+				}
+			}
+			for _, ini := range gen.Initialisms {
+				for tail := 0; tail < 3; tail++ {
+					idx++
+					if idx%w.Shards != w.Shard {
+						continue
+					}
+					ws := append(append([]string{}, filler...), strings.ToLower(ini))
+					switch tail {
+					case 1:
+						ws = append(ws, "url")
+					case 2:
+						ws = append(ws, "port")
+					}
+					func() {
+						defer func() {
+							if p := recover(); p != nil {
+								st := string(debug.Stack())
+								w.Violation(-1, "panic:"+fw.TopDialsFrame(st), fmt.Sprintf("DecodeGoCamelCase(%q) panicked: %v", gen.GoName(ws), p), map[string]any{"words": ws, "stack": fw.TrimStack(st)})
+							}
+						}()
+						if c19CheckGoName(w, -1, ws) {
+							w.DistinctN(1)
+							w.Count("goident_alignment_sweep_names", 1)
+						}
+					}()
+					w.Eval(1)
+				}
+			}
+		}
+	}
 	// ---- concurrent round trips: the encoders and decoders are plain functions and must be safe to call from
 	// many goroutines at once (sources and decoders of several Dials instances do exactly that)
 	if w.ReplayCase < 0 {
@@ -294,6 +344,9 @@ func runC19(w *fw.Worker) {
 			if r.Chance(12) {
 				// a long run of adjacent initialisms (JSONAPIURLHTTPSSH...), optionally between ordinary words
 				k := r.Range(4, 16)
+				if r.Chance(25) {
+					k = r.Range(17, 48) // runs well beyond 64 bytes
+				}
 				ws = ws[:0]
 				if r.Bool() {
 					ws = append(ws, fw.Pick(r, gen.OrdinaryWords))
